@@ -340,6 +340,31 @@ Proof.
     destruct (lookup1 es n) as [c|]; [|reflexivity]. cbn [option_map]. apply IH. discriminate.
 Qed.
 
+(** removal below the top level commutes with dropping the top-level extensions entry *)
+Lemma filter_comm {A} (f g : A -> bool) l : filter f (filter g l) = filter g (filter f l).
+Proof.
+  induction l as [|a l IH]; [reflexivity|]. cbn [filter].
+  destruct (g a) eqn:G, (f a) eqn:F; cbn [filter]; rewrite ?G, ?F, IH; reflexivity.
+Qed.
+
+Lemma drop_remove_comm t n q :
+  n <> EXT -> drop_top_ext (remove_at t (n :: q)) = remove_at (drop_top_ext t) (n :: q).
+Proof.
+  intros Hn. destruct t as [c|es]; [reflexivity|]. destruct q as [|n2 q].
+  - cbn [remove_at drop_top_ext]. f_equal. apply filter_comm.
+  - change (remove_at (Dir es) (n :: n2 :: q)) with
+      (Dir (map (fun e : name * tree => let '(m, c) := e in
+                   if bytes_eqb m n then (m, remove_at c (n2 :: q)) else (m, c)) es)).
+    cbn [drop_top_ext].
+    change (remove_at (Dir (filter (fun e => negb (bytes_eqb (fst e) EXT)) es)) (n :: n2 :: q)) with
+      (Dir (map (fun e : name * tree => let '(m, c) := e in
+                   if bytes_eqb m n then (m, remove_at c (n2 :: q)) else (m, c))
+                (filter (fun e => negb (bytes_eqb (fst e) EXT)) es))).
+    f_equal. induction es as [|[m d] es IH]; [reflexivity|]. cbn [map filter fst].
+    destruct (bytes_eqb m n) eqn:E1; cbn [fst]; destruct (bytes_eqb m EXT) eqn:E2; cbn [negb map];
+      rewrite ?E1, IH; reflexivity.
+Qed.
+
 (** * The ids of the remaining roots *)
 Lemma NoDup_app_disj {A} (l l' : list A) x : NoDup (l ++ l') -> In x l -> In x l' -> False.
 Proof.
@@ -379,7 +404,6 @@ Section Purge.
   Variable i : bytes.
   Hypothesis W : WellFormedRepo t.
   Hypothesis U : names_unique t = true.
-  Hypothesis K1 : c19_root_named_extensions t = false.
   Hypothesis Hin : In (p, ces) (walk t).
   Hypothesis Hi : In i (root_id (p, ces)).
 
@@ -402,7 +426,12 @@ Section Purge.
   Qed.
 
   Lemma purge_walk : walk (remove_at t p) = filter (not_at p) (spec_roots t).
-  Proof. unfold walk. rewrite (walk_remove true t U p ces Hin). fold (walk t). now rewrite (walk_is_spec t K1). Qed.
+  Proof.
+    pose proof (walk_in_spec t _ Hin) as Hs. rewrite walk_is_spec.
+    destruct (spec_roots_head t p ces Hs) as (n & q & E & Hn). unfold spec_roots. rewrite E in *.
+    rewrite (drop_remove_comm t n q Hn).
+    apply (walk_remove false (drop_top_ext t) (names_unique_drop t U) (n :: q) ces Hs).
+  Qed.
 
   Lemma purge_ids : flat_map root_id (walk (remove_at t p)) = filter neq_i (committed_ids t).
   Proof. rewrite purge_walk. apply flat_filter_ids. intros r Hr. apply purge_elem, Hr. Qed.
@@ -411,7 +440,29 @@ Section Purge.
     listed_ids (list_objects gm (remove_at t p) None) = filter neq_i (committed_ids t).
   Proof. unfold list_objects. cbn [option_map]. rewrite listed_ids_iter_none. apply purge_ids. Qed.
 
+  Lemma purge_spec_roots : spec_roots (remove_at t p) = filter (not_at p) (spec_roots t).
+  Proof. rewrite <- walk_is_spec. apply purge_walk. Qed.
+
+  Lemma purge_committed_ids : committed_ids (remove_at t p) = filter neq_i (committed_ids t).
+  Proof. unfold committed_ids at 1. rewrite <- walk_is_spec. apply purge_ids. Qed.
+
+  (** the repository stays well formed *)
+  Lemma purge_wf : WellFormedRepo (remove_at t p).
+  Proof.
+    destruct W as [Wf N]. split.
+    - rewrite purge_spec_roots. rewrite Forall_forall in *. intros r Hr. apply filter_In in Hr as [Hr _]. auto.
+    - rewrite purge_committed_ids. apply NoDup_filter, N.
+  Qed.
+
   Hypothesis K2 : c19_id_needs_escape t = false.
+
+  Lemma purge_no_escape : c19_id_needs_escape (remove_at t p) = false.
+  Proof.
+    unfold c19_id_needs_escape in *. rewrite purge_committed_ids.
+    destruct (existsb needs_escape (filter neq_i (committed_ids t))) eqn:E; [|reflexivity].
+    apply existsb_exists in E as (x & Hx & Ex). apply filter_In in Hx as [Hx _].
+    assert (existsb needs_escape (committed_ids t) = true) by (apply existsb_exists; eauto). congruence.
+  Qed.
 
   Lemma purge_iter id :
     iter_items (Some (bytes_eqb id)) (remove_at t p) = flat_map (hits id) (walk (remove_at t p)).
@@ -436,54 +487,66 @@ Section Purge.
 End Purge.
 
 (** * Lookup with the cache *)
-Lemma cached_lookup t i p :
-  names_unique t = true -> cache_entry_ok t i p = true ->
-  (In i (committed_ids t) -> get_inventory_by_path t i p = Found p i) /\
-  (~ In i (committed_ids t) -> get_inventory_by_path t i p = NotFound).
+Lemma rooted_lookup t i p :
+  names_unique t = true -> existsb (root_is i p) (spec_roots t) = true ->
+  get_inventory_by_path t i p = Found p i /\ In i (committed_ids t).
 Proof.
-  intros U. unfold cache_entry_ok. destruct (existsb (root_is i p) (spec_roots t)) eqn:E.
-  - intros _. apply existsb_exists in E as ([p' ces] & Hr & Hx). unfold root_is in Hx.
-    apply andb_true_iff in Hx as [Hp Hx]. cbn [fst] in Hp. apply path_eqb_eq in Hp. subst p'.
-    apply existsb_exists in Hx as (j & Hj & Ej). apply bytes_eqb_eq in Ej. subst j.
-    assert (F : get_inventory_by_path t i p = Found p i).
-    { unfold get_inventory_by_path. rewrite (lookup_spec t p ces U Hr).
-      pose proof (root_id_parse _ _ Hj) as Q. cbn [snd] in Q. now rewrite Q, bytes_eqb_refl. }
-    split; [intros _; exact F|]. intros N. exfalso. apply N. unfold committed_ids.
-    apply in_flat_map. eauto.
-  - destruct (lookup_path t p) eqn:L; [discriminate|]. intros H. apply negb_true_iff in H.
-    split.
-    + intros Hc. exfalso. assert (existsb (bytes_eqb i) (committed_ids t) = true).
-      { apply existsb_exists. exists i. split; [exact Hc| apply bytes_eqb_refl]. }
-      congruence.
-    + intros _. apply get_by_path_free, L.
+  intros U E. apply existsb_exists in E as ([p' ces] & Hr & Hx). unfold root_is in Hx.
+  apply andb_true_iff in Hx as [Hp Hx]. cbn [fst] in Hp. apply path_eqb_eq in Hp. subst p'.
+  apply existsb_exists in Hx as (j & Hj & Ej). apply bytes_eqb_eq in Ej. subst j. split.
+  - unfold get_inventory_by_path. rewrite (lookup_spec t p ces U Hr).
+    pose proof (root_id_parse _ _ Hj) as Q. cbn [snd] in Q. now rewrite Q, bytes_eqb_refl.
+  - unfold committed_ids. apply in_flat_map. eauto.
+Qed.
+
+Lemma cache_sound_get c t i p :
+  cache_sound c t = true -> cache_get c i = Some p -> existsb (root_is i p) (spec_roots t) = true.
+Proof.
+  unfold cache_sound. induction c as [|[j q] c IH]; [discriminate|]. cbn [forallb cache_get fst snd].
+  intros H. apply andb_true_iff in H as [H1 H2]. destruct (bytes_eqb j i) eqn:E.
+  - apply bytes_eqb_eq in E. subst j. intros X. injection X as <-. exact H1.
+  - apply IH, H2.
+Qed.
+
+Lemma cache_of_layout_get m c i p :
+  cache_of_layout m c = true -> cache_get c i = Some p -> p = m i.
+Proof.
+  unfold cache_of_layout. induction c as [|[j q] c IH]; [discriminate|]. cbn [forallb cache_get fst snd].
+  intros H. apply andb_true_iff in H as [H1 H2]. destruct (bytes_eqb j i) eqn:E.
+  - apply bytes_eqb_eq in E. subst j. intros X. injection X as <-. now apply path_eqb_eq in H1.
+  - apply IH, H2.
 Qed.
 
 Lemma get_inventory_nolayout c t i :
-  Forall wf_root (spec_roots t) -> names_unique t = true -> c19 t = false -> c19_cache_stale c t i = false ->
+  Forall wf_root (spec_roots t) -> names_unique t = true -> c19_id_needs_escape t = false ->
+  cache_sound c t = true ->
   (In i (committed_ids t) -> exists p, fst (get_inventory None c t i) = Found p i) /\
   (~ In i (committed_ids t) -> fst (get_inventory None c t i) = NotFound).
 Proof.
-  intros W U K S. unfold get_inventory, c19_cache_stale in *. destruct (cache_get c i) as [p|].
-  - apply negb_false_iff in S. destruct (cached_lookup t i p U S) as [A B]. cbn [fst]. split; eauto.
+  intros W U K S. unfold get_inventory. destruct (cache_get c i) as [p|] eqn:G.
+  - destruct (rooted_lookup t i p U (cache_sound_get c t i p S G)) as [A B]. cbn [fst]. split; [eauto|].
+    intros N. contradiction.
   - destruct (scan_spec t i W K) as (_ & A & B & _). split.
     + intros H. destruct (A H) as [p ->]. cbn [fst]. eauto.
     + intros H. now rewrite (B H).
 Qed.
 
 Lemma get_inventory_layout m c t i :
-  names_unique t = true -> Placed m t -> c19_cache_stale c t i = false ->
+  names_unique t = true -> Placed m t -> cache_of_layout m c = true ->
   (In i (committed_ids t) -> exists p, fst (get_inventory (Some m) c t i) = Found p i) /\
   (~ In i (committed_ids t) -> lookup_path t (m i) = None -> fst (get_inventory (Some m) c t i) = NotFound).
 Proof.
-  intros U P S. unfold get_inventory, c19_cache_stale in *. destruct (cache_get c i) as [p|].
-  - apply negb_false_iff in S. destruct (cached_lookup t i p U S) as [A B]. cbn [fst]. split; eauto.
-  - cbn [fst]. split.
-    + intros H. exists (m i). apply get_by_path_committed; assumption.
-    + intros _ L. apply get_by_path_free, L.
+  intros U P S.
+  assert (E : fst (get_inventory (Some m) c t i) = get_inventory_by_path t i (m i)).
+  { unfold get_inventory. destruct (cache_get c i) as [p|] eqn:G; [|reflexivity].
+    now rewrite (cache_of_layout_get m c i p S G). }
+  rewrite E. split.
+  - intros H. exists (m i). apply get_by_path_committed; assumption.
+  - intros _ L. apply get_by_path_free, L.
 Qed.
 
 Lemma purged_not_found_lemma gm t p ces i :
-  WellFormedRepo t -> names_unique t = true -> c19 t = false ->
+  WellFormedRepo t -> names_unique t = true -> c19_id_needs_escape t = false ->
   In (p, ces) (walk t) -> In i (root_id (p, ces)) ->
   Permutation (listed_ids (list_objects gm (remove_at t p) None))
               (filter (fun j => negb (bytes_eqb j i)) (committed_ids t)) /\
@@ -491,24 +554,24 @@ Lemma purged_not_found_lemma gm t p ces i :
   (forall j, j <> i -> In j (committed_ids t) -> exists p', scan_for_inventory (remove_at t p) j = Found p' j) /\
   get_inventory_by_path (remove_at t p) i p = NotFound.
 Proof.
-  intros W U K Hin Hi. unfold c19 in K. apply orb_false_iff in K as [K1 K2].
+  intros W U K2 Hin Hi.
   split; [|split; [|split]].
-  - rewrite (purged_listing t p ces i W U K1 Hin Hi gm). apply Permutation_refl.
-  - apply (purged_scan t p ces i W U K1 Hin Hi K2).
-  - apply (purged_scan t p ces i W U K1 Hin Hi K2).
+  - rewrite (purged_listing t p ces i W U Hin Hi gm). apply Permutation_refl.
+  - apply (purged_scan t p ces i W U Hin Hi K2).
+  - apply (purged_scan t p ces i W U Hin Hi K2).
   - apply get_by_path_free, lookup_removed.
-    apply (walk_gen_paths_nonempty true t (p, ces) Hin).
+    rewrite walk_is_spec in Hin. apply (walk_gen_paths_nonempty false _ (p, ces) Hin).
 Qed.
 
 Lemma staged_listing_exact_lemma gm s :
-  WellFormedRepo s -> c19_root_named_extensions s = false ->
+  WellFormedRepo s ->
   Permutation (listed_ids (list_staged_objects gm s None)) (committed_ids s) /\
   NoDup (listed_ids (list_staged_objects gm s None)) /\
   listed_errors (list_staged_objects gm s None) = [].
 Proof. unfold list_staged_objects. apply listing_exact. Qed.
 
 Lemma staged_listing_glob_lemma gm s g :
-  WellFormedRepo s -> c19 s = false ->
+  WellFormedRepo s -> c19_id_needs_escape s = false ->
   Permutation (listed_ids (list_staged_objects gm s (Some g))) (filter (gm g) (committed_ids s)) /\
   listed_errors (list_staged_objects gm s (Some g)) = [].
 Proof. unfold list_staged_objects. apply listing_glob_lemma. Qed.
